@@ -13,9 +13,9 @@ from . import c01
 from .. import common
 from ..schedlib import model_request, run_impl
 
-MODULES = sc.MODULES + ["Lifecycle"]
+MODULES = sc.MODULES + ["Lifecycle", "Props.C02", "Props.C04", "Props.C05Run", "Props.C03Run"]
 GEN_OBLIGATIONS = sc.GEN_OBLIGATIONS + ["status_enum"]
-THEOREM_DEPS = []
+THEOREM_DEPS = ["C03Run"]
 
 LC = re.compile(r"^i(c+)v(u*)f$")
 
